@@ -35,7 +35,8 @@ var c07Templates = []c07Tpl{
 		},
 		target: "let tgt (a:int) =\n  let p = {X=idf a; Y=cst ()}\n  let q = {X=p.Y; Y=idf 2}\n  (p, q)\n",
 		marks:  []string{"func tgt("},
-		extra:  "let ptx (p:Pt) =\n  p.X\n",
+		// also an unrelated record whose fields strictly contain those of the target's literals and whose name sorts first
+		extra:  "type Apt3 = {X: int; Y: int; Z: int}\n\nlet ptx (p:Pt) =\n  p.X\n",
 	},
 	{
 		deps: []string{
